@@ -66,7 +66,7 @@ impl Program {
     where
         T: Into<String>,
     {
-        let path = path.into().replace('\\', "/");
+        let path = crate::file::spelled_with_slashes(path.into());
         let entrypoint = Rc::new(path);
 
         let main_file = MScriptFile::open(Rc::clone(&entrypoint))?;
@@ -163,7 +163,7 @@ impl Program {
 
         let (path, label) = destination_label.split_at(last_hash);
 
-        let path = path.to_string().replace('\\', "/");
+        let path = crate::file::spelled_with_slashes(path.to_string());
         let path_ref = &path;
 
         let added = self.add_file(Rc::new(path.clone()))?;
